@@ -370,6 +370,19 @@ def race_mc(tier):
                  expect_violation='Act_C02_RevisionMonotone')]
 
 
+def teardown_race_mc(tier):
+    """teardown of the outgoing revision vs. rollout of the incoming one on a shared object, two controllers (spec/PKOTeardownRace.tla)"""
+    c = dict(PinRV='TRUE', PinPatch='TRUE', MaxPass=4 if tier == 'quick' else 7, MaxEnv=1)
+    inv = ['TypeOK', 'Inv_C05_DeletedWasControlled', 'Inv_C08_AdoptedNotDeleted', 'Inv_C05_ReleaseOnlyOwnEntry']
+    return [dict(name='teardownrace-pinned', kind='gen', module='PKOTeardownRace', constants=c, invariants=inv),
+            # negative controls: the delete without the resourceVersion precondition (seeded change C08 round 4) ...
+            dict(name='teardownrace-negctl-delete', kind='gen', module='PKOTeardownRace', constants=dict(c, PinRV='FALSE'),
+                 invariants=['Inv_C08_AdoptedNotDeleted'], expect_violation='Inv_C08_AdoptedNotDeleted'),
+            # ... and the co-owner clean-up without it (the code as found, defect C05 fixed by e6a0367)
+            dict(name='teardownrace-negctl-release', kind='gen', module='PKOTeardownRace', constants=dict(c, PinPatch='FALSE'),
+                 invariants=['Inv_C05_ReleaseOnlyOwnEntry'], expect_violation='Inv_C05_ReleaseOnlyOwnEntry')]
+
+
 LIVE = ['Live_C10_ObjectsRepaired', 'Live_C10_Quiescent', 'Live_C10_TeardownCompletes']
 
 
@@ -424,7 +437,7 @@ CHECKS = {
     'C04': dict(level='model_checking', invariants=INV['C04'], assumptions=ASSUME, mc=design_mc(MCINV['C04']), jobs=sched_jobs([
         ('teardown-atomic', TEARDOWN, 'teardown', 'atomic', 120, 2000, 70),
         ('teardown-api', TEARDOWN, 'teardown', 'api', 120, 2000, 140)])),
-    'C05': dict(level='model_checking', invariants=INV['C05'], assumptions=ASSUME, mc=design_mc(MCINV['C05']), jobs=sched_jobs([
+    'C05': dict(level='model_checking', invariants=INV['C05'], assumptions=ASSUME, mc=lambda tier: design_mc(MCINV['C05'])(tier) + teardown_race_mc(tier), jobs=sched_jobs([
         ('race-api', TEARDOWN, 'race', 'api', 200, 3000, 140),
         ('race-coowned-api', 'rolledout-handover,handover-2rev,handover-3rev', 'race', 'api', 160, 3000, 140),
         ('teardown-atomic', TEARDOWN, 'teardown', 'atomic', 80, 1000, 70)])),
@@ -434,7 +447,7 @@ CHECKS = {
     'C07': dict(level='model_checking', invariants=INV['C07'], assumptions=ASSUME, mc=deploy_mc('C07'), jobs=sched_jobs([
         ('deploy-atomic', DEPLOY, 'deploy', 'atomic', 120, 2000, 120),
         ('deploy-api', DEPLOY, 'deploy', 'api', 160, 3000, 250)])),
-    'C08': dict(level='model_checking', invariants=INV['C08'], assumptions=ASSUME, mc=deploy_mc('C08'), jobs=sched_jobs([
+    'C08': dict(level='model_checking', invariants=INV['C08'], assumptions=ASSUME, mc=lambda tier: deploy_mc('C08')(tier) + teardown_race_mc(tier), jobs=sched_jobs([
         ('deploy-atomic', DEPLOY, 'deploy', 'atomic', 160, 3000, 160),
         ('deploy-api', DEPLOY, 'deploy', 'api', 120, 2000, 250),
         # an object shared by a revision's local phase and another revision's delegated phase: the two controllers race
